@@ -108,8 +108,15 @@ model `1.50` and `1.5` are different trees with the same printed form; only the 
 canonical.) -/
 def _root_.InfluxQL.Dec.canonical (d : Dec) : Bool := decide (1 ≤ d.scale) && (decide (d.mant % 10 ≠ 0) || d.scale == 1)
 
+/-- `2^1024 − 2^970` written out: the least value `strconv.ParseFloat` rounds to `+Inf` (a numeral,
+so that the class predicate evaluates under `decide`). -/
+def floatBound : Nat :=
+  179769313486231580793728971405303415079934132710037826936173778980444968292764750946649017977587207096330286416692887910946555547851940402630657488671505820681908902000708383676273854845817711531764475730270069855571366959622842914819860834936475292719074168444365510704342711559699508093042880177904174497792
+
+theorem floatBound_eq : floatBound = 2 ^ 1024 - 2 ^ 970 := by decide +kernel
+
 /-- The documented bound: the value is below the `float64` overflow threshold. -/
-def _root_.InfluxQL.Dec.finite (d : Dec) : Bool := decide (d.mant < (2 ^ 1024 - 2 ^ 970) * 10 ^ d.scale)
+def _root_.InfluxQL.Dec.finite (d : Dec) : Bool := decide (d.mant < floatBound * 10 ^ d.scale)
 
 theorem padDigits_length (w n : Nat) (h : n < 10 ^ w) (hw : 1 ≤ w) : (padDigits w n).length = w := by
   obtain ⟨k, rfl⟩ := Nat.exists_eq_succ_of_ne_zero (by omega : w ≠ 0)
@@ -169,7 +176,8 @@ the bound returns that decimal itself. -/
 theorem parseNumberLit_canonical (d : Dec) (hneg : d.neg = false) (hc : d.canonical = true)
     (hfin : d.finite = true) (pos : Pos) (s : PState) :
     (parseNumberLit d.print pos).run s = .ok (.number d, s) := by
-  have hfin' : d.mant < (2 ^ 1024 - 2 ^ 970) * 10 ^ d.scale := by simpa [Dec.finite] using hfin
+  have hfin' : d.mant < (2 ^ 1024 - 2 ^ 970) * 10 ^ d.scale := by
+    rw [← floatBound_eq]; simpa [Dec.finite] using hfin
   rw [parseNumberLit_print d hneg hfin' pos s]
   have hL := d.fracDigits_length hc
   have hv := d.fracDigits_value
